@@ -980,10 +980,18 @@ def weird_net(rng, idx=0):
 
 PATTERNS = ["multi_input", "input_npu_and_cpu", "residual", "lut_reuse", "deep_slices", "fc1_after_conv", "nobias",
             "casc_s2_valid", "two_npu_islands", "concat_slices", "shared_weights", "big_fm_u65", "avgpool_chain", "minmax_lrelu", "reshape_fork", "widen_ew"]
+# families defined in netgen_ext.py (imported lazily: that module imports this one)
+EXT_PATTERNS = ["lut_mixed", "shape_out", "transpose_perm", "ew_fork", "fc1_two_core"]
+PATTERNS += EXT_PATTERNS
 
 
-def pattern_net(rng, idx=0, pattern=None):
+def pattern_net(rng, idx=0, pattern=None, variant=None):
+    """`variant` (pattern sweep): deterministic choice of the sub-kind inside a family; None = drawn at random"""
     pattern = pattern or rng.choice(PATTERNS)
+    if pattern in EXT_PATTERNS:
+        import netgen_ext
+
+        return netgen_ext.build(rng, idx, pattern, variant)
     dtype = rng.choice(["int8", "int8", "uint8"])
     b = B(rng, f"pat{idx}_{pattern}", dtype)
     b.net.desc.append(f"pattern={pattern} dtype={dtype}")
